@@ -138,6 +138,36 @@ def run(tier):
             ck.violation("order-dependent-verdict", "two orders of the same declarations are not accepted/rejected alike",
                          "order 1:\n%s\norder 2:\n%s" % (dict(cases)["g%d.0" % i], dict(cases)["g%d.1" % i]))
     ck.log("graphs: %d modules %s, %d problems" % (len(cases), dict(stats), mism))
+    # type legality per position: every written type up to nesting depth 2/3 x every declaration position,
+    # real codes vs Model/TypeLegal.v
+    from .. import gen_legal, compare_legal
+    depth = 2 if tier == "quick" else 3
+    lcases, litems, lmeta = [], [], {}
+    for pos in gen_legal.positions():
+        for t in gen_legal.types(depth):
+            text, mpos, noinit = gen_legal.program(pos, t)
+            cid = "L%d" % len(lcases)
+            lcases.append((cid, text)); litems.append(("legal", cid, "(%s %s)" % (mpos, gen_legal.sexp(t)))); lmeta[cid] = (gen_legal.posname(pos), gen_legal.src(t), noinit)
+    limpl = C.run_harness("front", lcases, ck.work + "/legal", timeout=3000)
+    lmodel = C.run_model(litems, ck.work + "/legal", timeout=3000)
+    lstats = collections.Counter(); lbad = 0
+    for cid, text in lcases:
+        posn, tys, noinit = lmeta[cid]
+        rf = limpl.get(cid, ["missing"])[0]
+        r = compare_legal.parse_real(rf); m = compare_legal.parse_model(lmodel.get(cid, "<missing>"))
+        if noinit and m == ("codes", []) and r[0] == "codes": r = ("codes", [c for c in r[1] if c != 500])
+        if r[0] == "panic" or rf.startswith("panic@") or rf.startswith("crash"):
+            lstats["panic"] += 1
+            ck.violation(C.failure_key(rf), "declaring %s as %s makes the compiler fail: %s (the model %s)" % (tys, posn, rf[:120], "predicts this assertion failure" if m[0] == "panic" else "says " + str(m)), text)
+            if m[0] != "panic": lbad += 1
+            continue
+        if r == m:
+            lstats["accepted" if m == ("codes", []) else "rejected"] += 1
+        else:
+            lbad += 1; lstats["DISAGREE"] += 1
+            ck.violation("type-legality-differs", "type %s at position %s: the compiler says %s, Model/TypeLegal.v says %s" % (tys, posn, rf[:100], lmodel.get(cid)), text)
+    ck.log("type legality: %d declarations (depth %d) %s" % (len(lcases), depth, dict(lstats)))
+    mism += lbad
     # words larger than declared (E380): every small word at every declared size
     from . import c10
     nwords, wbad = c10.check_words(ck, tier)
@@ -168,9 +198,9 @@ def run(tier):
         ck.violation("tie-broken:proof", "Props/C11.v no longer checks", getattr(ck, "proof_output", "")[-2000:])
     ck.coverage.update(
         evaluations=len(cases) + len(pc), distinct_nontrivial=len(distinct),
-        rule="random dependency graphs of 2-7 constants and structures (edges through constant expressions, size-of, member types, named array lengths; 35% with back edges), each in two source orders: acyclic must be accepted, cyclic rejected with a cycle code, both orders alike; scoper depths and cycle codes vs Model/Containers.v fed with the edge list in processing order; every word of 1-4 members of 1/2/4/8 bytes at every declared size (E380 iff the aligned size exceeds it, per Model/Layout.v); plus generated programs (with constants defined from constants, structures, words, functions) under 3 random permutations of ALL their top-level declarations (same verdict and lli output); distinct = distinct graphs",
+        rule="random dependency graphs of 2-7 constants and structures (edges through constant expressions, size-of, member types, named array lengths; 35% with back edges), each in two source orders: acyclic must be accepted, cyclic rejected with a cycle code, both orders alike; scoper depths and cycle codes vs Model/Containers.v fed with the edge list in processing order; every written type up to nesting depth 2 (quick) / 3 (thorough) over 9 leaves and 7 constructors at every declaration position (variable, size-of, constant, parameter with and without body, return type, struct member, word member of every size; plain, pub, extern, pub extern): the reported codes must be exactly those of Model/TypeLegal.v; every word of 1-4 members of 1/2/4/8 bytes at every declared size (E380 iff the aligned size exceeds it, per Model/Layout.v); plus generated programs (with constants defined from constants, structures, words, functions) under 3 random permutations of ALL their top-level declarations (same verdict and lli output); distinct = distinct graphs",
         graph_stats=dict(stats), problems=mism, permuted_programs=compared,
         samples=[dict(source=cases[0][1], graph=meta[cases[0][0]][1], real=impl.get(cases[0][0], ["?"])[0])])
     ck.assumptions += ["the edge list given to the model is computed by the generator in the order the scoper visits declarations, value expressions, members and array types",
-                       "type legality per position (E350-E359) is not covered by this check yet"]
+                       "names that are undeclared or cyclic stay the scoper's business; the legality model takes what a name is declared as"]
     return ck.finish()
